@@ -83,12 +83,29 @@ package atree
 //@ iface element.Set(storage, address, b, digester, level, hkey, comparator, hip, key, value) (newElem, ks, existing, err)
 //@   ensures err == nil ==> newElem != nil && ks != nil && (existing != nil) == old(ehas(recv, key))
 //@   ensures err != nil ==> newElem == nil
+//@   # a first-level element stays within the per-element inline limit: a value above its limit is externalised by Value.Storable,
+//@   # a first-level group above the limit is spilled into its own slab
+//@   ensures err == nil && level == 0 ==> esz(newElem) <= maxInlineMapElementSize
+//@   # the result is the receiver (updated in place) or a new element (a group made from the resident element and the new one, or the
+//@   # reference to a spilled group); a new inline group owns a new list
+//@   ensures err == nil ==> (newElem == recv || fresh(newElem)) && esz(newElem) >= 1
+//@   # uint32 size arithmetic stays in range (below the first level nothing bounds the size of a nested group; assumed, see DESIGN finding (v))
+//@   ensures err == nil ==> esz(newElem) <= 2000000
+//@   # slabs outside the element's subtree (other than the roots of the key and value being stored) stay where they are
+//@   ensures forall id SlabID :: old(sto[id]) != nil && old(sto[id]) != valueRoot(key) && old(sto[id]) != valueRoot(value) && !inSub(recv, old(sto[id])) ==> sto[id] == old(sto[id])
+//@   ensures err == nil && is(newElem, *inlineCollisionGroup) ==> fresh(as(newElem, *inlineCollisionGroup).elements) || inSub(recv, as(newElem, *inlineCollisionGroup).elements)
 //@   modifies singleElement.*@inSub(recv), inlineCollisionGroup.*@inSub(recv), externalCollisionGroup.*@inSub(recv), hkeyElements.*@inSub(recv), singleElements.*@inSub(recv),
 //@        ghost.sto, ghost.stored, ghost.touched, alloc
 
 //@ iface element.Remove(storage, digester, level, hkey, comparator, key) (k, v, newElem, err)
 //@   ensures err == nil ==> k != nil && old(ehas(recv, key))
 //@   ensures isKeyNotFound(err) ==> !old(ehas(recv, key))
+//@   # what is left of the element (a smaller group, or the last remaining single element of a collapsed group) is within the inline limit
+//@   ensures err == nil && newElem != nil && old(esz(recv)) <= maxInlineMapElementSize ==> esz(newElem) <= maxInlineMapElementSize
+//@   # what is left is the receiver itself (a smaller group) or the last remaining single element of a collapsed group
+//@   ensures err == nil && newElem != nil ==> (newElem == recv || is(newElem, *singleElement)) && esz(newElem) >= 1 && esz(newElem) <= 2000000
+//@   ensures err == nil && newElem != nil && is(newElem, *inlineCollisionGroup) ==> inSub(recv, as(newElem, *inlineCollisionGroup).elements)
+//@   ensures forall id SlabID :: old(sto[id]) != nil && !inSub(recv, old(sto[id])) ==> sto[id] == old(sto[id])
 //@   modifies singleElement.*@inSub(recv), inlineCollisionGroup.*@inSub(recv), externalCollisionGroup.*@inSub(recv), hkeyElements.*@inSub(recv), singleElements.*@inSub(recv),
 //@        ghost.sto, ghost.stored, ghost.touched, alloc
 
@@ -111,6 +128,7 @@ package atree
 //@   ensures err == nil ==> el != nil && fresh(el) && el.key != nil && el.value != nil && el.size == 1 + bs(el.key) + bs(el.value) &&
 //@        bs(el.key) <= maxInlineMapKeySize && el.size <= maxInlineMapElementSize
 //@   ensures err != nil ==> el == nil && categorised(err)
+//@   ensures[C09] forall id SlabID :: old(sto[id]) != nil && old(sto[id]) != valueRoot(key) && old(sto[id]) != valueRoot(value) ==> sto[id] == old(sto[id])
 //@   modifies ghost.sto, ghost.stored, ghost.touched, alloc,
 //@        as(valueRoot(key), *ArrayDataSlab).header, as(valueRoot(key), *ArrayDataSlab).inlined, as(valueRoot(key), *MapDataSlab).header, as(valueRoot(key), *MapDataSlab).inlined,
 //@        as(valueRoot(value), *ArrayDataSlab).header, as(valueRoot(value), *ArrayDataSlab).inlined, as(valueRoot(value), *MapDataSlab).header, as(valueRoot(value), *MapDataSlab).inlined
@@ -118,10 +136,13 @@ package atree
 //@ pred sameHk(e *hkeyElements) = e.hkeys == old(e.hkeys) && e.elems == old(e.elems) && e.size == old(e.size) && e.level == old(e.level)
 
 //@ func (e *hkeyElements) Set(storage, address, b, digester, level, hkey, comparator, hip, key, value) (ks, existing, err)  serves C02 C05 C06 C12 C18
-//@   requires wfHk(e) && storage != nil && digester != nil && comparator != nil && key != nil && value != nil && e.size <= 4294900000
+//@   requires wfHk(e) && storage != nil && digester != nil && comparator != nil && key != nil && value != nil && e.size <= 4290000000
 //@   assume (forall k :: 0 <= k && k < len(e.elems) ==> inSub(e, e.elems[k]) && !inSub(e.elems[k], e) &&
-//@        !(is(e.elems[k], *inlineCollisionGroup) && as(e.elems[k], *inlineCollisionGroup).elements == e))
-//@        because "frame assumption F: elements belong to the subtree of the list that holds them, and not vice versa (a list is not nested inside its own elements)"
+//@        !(is(e.elems[k], *inlineCollisionGroup) && as(e.elems[k], *inlineCollisionGroup).elements == e)) &&
+//@        (forall k :: 0 <= k && k < len(e.elems) && is(e.elems[k], *inlineCollisionGroup) ==> inSub(e.elems[k], as(e.elems[k], *inlineCollisionGroup).elements)) &&
+//@        (forall k, j :: 0 <= k && k < len(e.elems) && 0 <= j && j < len(e.elems) && k != j ==> !inSub(e.elems[k], e.elems[j])) &&
+//@        (forall k, j, r ref :: 0 <= k && k < len(e.elems) && 0 <= j && j < len(e.elems) && k != j ==> !(inSub(e.elems[k], r) && inSub(e.elems[j], r)))
+//@        because "frame assumption F: elements belong to the subtree of the list that holds them, and not vice versa (a list is not nested inside its own elements); subtrees of distinct elements are disjoint"
 //@   assume (forall el element :: esz(el) <= 2000000) because "element sizes are bounded by the inline limits (C05); keeps uint32 size arithmetic in range"
 //@   ensures[C02] err == nil && (forall k :: 0 <= k && k < len(old(e.hkeys)) ==> old(e.hkeys)[k] != hkey) ==>
 //@        existing == nil && len(e.hkeys) == len(old(e.hkeys)) + 1 &&
@@ -146,6 +167,10 @@ package atree
 //@   ensures[C12] (exists k :: 0 <= k && k < len(old(e.hkeys)) && old(e.hkeys)[k] == hkey && gerr(old(e.elems)[k], key) == 0) ==> refusals == old(refusals)
 //@   ensures[C12] (exists k :: 0 <= k && k < len(old(e.hkeys)) && old(e.hkeys)[k] == hkey && countOK(old(e.elems)[k]) && ecount(old(e.elems)[k]) >= 1 &&
 //@        ecount(old(e.elems)[k]) - 1 < maxCollisionLimitPerDigest) ==> refusals == old(refusals)
+//@   ensures[C05] err == nil && level == 0 && old(hkFit(e)) ==> hkFit(e)
+//@   ensures[C05] err == nil && level == 0 ==> e.size <= old(e.size) + maxInlineMapElementSize + 8
+//@   ensures err == nil ==> e.size <= old(e.size) + 2000008
+//@   ensures[C09] forall id SlabID :: old(sto[id]) != nil && old(sto[id]) != valueRoot(key) && old(sto[id]) != valueRoot(value) && !inSub(e, old(sto[id])) ==> sto[id] == old(sto[id])
 //@   modifies ghost.refusals, hkeyElements.*@inSub(e), singleElement.*@inSub(e), inlineCollisionGroup.*@inSub(e), externalCollisionGroup.*@inSub(e), singleElements.*@inSub(e),
 //@        ghost.sto, ghost.stored, ghost.touched, alloc,
 //@        as(valueRoot(key), *ArrayDataSlab).header, as(valueRoot(key), *ArrayDataSlab).inlined, as(valueRoot(key), *MapDataSlab).header, as(valueRoot(key), *MapDataSlab).inlined,
@@ -154,12 +179,25 @@ package atree
 //@        (forall k :: 0 <= k && k < i ==> e.hkeys[k] < hkey) && (forall k :: j <= k && k < len(e.hkeys) ==> e.hkeys[k] > hkey) &&
 //@        (j < len(e.hkeys) ==> lessThanIndex == j) && e.hkeys[len(e.hkeys) - 1] >= hkey && e.hkeys[0] <= hkey
 //@   loop 2: invariant 0 <= i && i <= len(e.elems) && size == 8 + 8 * i + sum(esz, e.elems, i)
+//@   loop 2: invariant 0 <= equalIndex && equalIndex < len(e.elems) && (i < len(e.elems) ==> oldheap(e.elems[i]) != nil)
+//@   loop 2: invariant size == 8 + 8 * i + oldheap(sum(esz, e.elems, i)) + ite(i > equalIndex, esz(e.elems[equalIndex]) - oldheap(esz(e.elems[equalIndex])), 0)
+
+//@ # one element is bounded by the total: the prefix sums around position k
+//@ lemma elemInTotal(e *hkeyElements, k int)  serves C06
+//@   requires e != nil && 0 <= k && k < len(e.elems)
+//@   ensures 0 <= sum(esz, e.elems, k) && sum(esz, e.elems, k + 1) <= sum(esz, e.elems, len(e.elems)) &&
+//@        (esz(e.elems[k]) >= 0 ==> sum(esz, e.elems, k + 1) == sum(esz, e.elems, k) + esz(e.elems[k]))
+//@   trigger { e.elems[k] }
 
 //@ func (e *hkeyElements) Remove(storage, digester, level, hkey, comparator, key) (k, v, err)  serves C02 C06 C18
-//@   requires wfHk(e) && storage != nil && digester != nil && comparator != nil
+//@   uses elemInTotal
+//@   requires wfHk(e) && storage != nil && digester != nil && comparator != nil && e.size <= 4290000000
 //@   assume (forall i :: 0 <= i && i < len(e.elems) ==> inSub(e, e.elems[i]) && !inSub(e.elems[i], e) &&
-//@        !(is(e.elems[i], *inlineCollisionGroup) && as(e.elems[i], *inlineCollisionGroup).elements == e))
-//@        because "frame assumption F: elements belong to the subtree of the list that holds them, and not vice versa (a list is not nested inside its own elements)"
+//@        !(is(e.elems[i], *inlineCollisionGroup) && as(e.elems[i], *inlineCollisionGroup).elements == e)) &&
+//@        (forall i :: 0 <= i && i < len(e.elems) && is(e.elems[i], *inlineCollisionGroup) ==> inSub(e.elems[i], as(e.elems[i], *inlineCollisionGroup).elements)) &&
+//@        (forall i, j :: 0 <= i && i < len(e.elems) && 0 <= j && j < len(e.elems) && i != j ==> !inSub(e.elems[i], e.elems[j])) &&
+//@        (forall i, j, r ref :: 0 <= i && i < len(e.elems) && 0 <= j && j < len(e.elems) && i != j ==> !(inSub(e.elems[i], r) && inSub(e.elems[j], r)))
+//@        because "frame assumption F: elements belong to the subtree of the list that holds them, and not vice versa (a list is not nested inside its own elements); subtrees of distinct elements are disjoint"
 //@   ensures[C18] (forall i :: 0 <= i && i < len(old(e.hkeys)) ==> old(e.hkeys)[i] != hkey) && !isFatal(err) ==> err != nil && isUser(err) && isKeyNotFound(err) && sameHk(e) && sto == old(sto)
 //@   ensures[C18] err != nil ==> sameHk(e)
 //@   ensures[C02] err == nil ==> (exists p :: 0 <= p && p < len(old(e.hkeys)) && old(e.hkeys)[p] == hkey &&
@@ -169,6 +207,12 @@ package atree
 //@           (forall i :: p <= i && i < len(e.hkeys) ==> e.hkeys[i] == old(e.hkeys)[i + 1] && e.elems[i] == old(e.elems)[i + 1]))))
 //@   ensures[C06] err == nil ==> hkShape(e) && e.level == old(e.level)
 //@   ensures[C02] err == nil ==> hkSorted(e)
+//@   ensures[C06] err == nil ==> hkSized(e)
+//@   ensures[C05] err == nil && old(hkPos(e)) ==> hkPos(e)
+//@   ensures[C05] err == nil && old(hkFit(e)) ==> hkFit(e)
+//@   ensures[C05] err == nil && old(hkFit(e)) ==> e.size <= old(e.size) + maxInlineMapElementSize
+//@   ensures err == nil ==> e.size <= old(e.size) + 2000000
+//@   ensures[C09] forall id SlabID :: old(sto[id]) != nil && !inSub(e, old(sto[id])) ==> sto[id] == old(sto[id])
 //@   modifies hkeyElements.*@inSub(e), singleElement.*@inSub(e), inlineCollisionGroup.*@inSub(e), externalCollisionGroup.*@inSub(e), singleElements.*@inSub(e),
 //@        ghost.sto, ghost.stored, ghost.touched, alloc
 //@   loop 1: invariant 0 <= i && i <= j && j <= len(e.hkeys) && equalIndex == -1 &&
@@ -178,6 +222,10 @@ package atree
 //@   requires wfHk(e) && elems != nil && (is(elems, *hkeyElements) ==> as(elems, *hkeyElements) != e && wfHk(as(elems, *hkeyElements)) &&
 //@        (len(e.hkeys) > 0 && len(as(elems, *hkeyElements).hkeys) > 0 ==> e.hkeys[len(e.hkeys) - 1] < as(elems, *hkeyElements).hkeys[0]) &&
 //@        e.size + as(elems, *hkeyElements).size <= 4294967295)
+//@   assume (forall k :: 0 <= k && k < len(e.elems) ==> !(is(e.elems[k], *inlineCollisionGroup) && as(e.elems[k], *inlineCollisionGroup).elements == e)) &&
+//@        (is(elems, *hkeyElements) ==> (forall k :: 0 <= k && k < len(as(elems, *hkeyElements).elems) ==>
+//@            !(is(as(elems, *hkeyElements).elems[k], *inlineCollisionGroup) && as(as(elems, *hkeyElements).elems[k], *inlineCollisionGroup).elements == e)))
+//@        because "frame assumption F: the list is not nested inside an element of either list"
 //@   ensures is(elems, *hkeyElements) ==> err == nil
 //@   ensures[C02] err == nil ==> len(e.hkeys) == len(old(e.hkeys)) + len(old(as(elems, *hkeyElements).hkeys)) &&
 //@        (forall k :: 0 <= k && k < len(old(e.hkeys)) ==> e.hkeys[k] == old(e.hkeys)[k] && e.elems[k] == old(e.elems)[k]) &&
@@ -186,6 +234,8 @@ package atree
 //@   ensures[C06] err == nil ==> hkShape(e) && e.size == old(e.size) + old(as(elems, *hkeyElements).size) - 8
 //@   ensures[C02] err == nil ==> hkSorted(e)
 //@   ensures[C06] err == nil ==> hkSized(e)
+//@   ensures[C05] err == nil && old(hkPos(e)) && old(hkPos(as(elems, *hkeyElements))) ==> hkPos(e)
+//@   ensures[C05] err == nil && old(hkFit(e)) && old(hkFit(as(elems, *hkeyElements))) ==> hkFit(e)
 //@   modifies e.hkeys, e.elems, e.size, ghost.touched, alloc
 
 //@ # ---------------------------------------------------------------- map_elements_nokey.go: last-level collision list (C02, C12, C13, C18)
